@@ -446,6 +446,31 @@ Theorem C09_queued_task_not_blocked : forall st sp wc tc wfd tfd e p,
 Proof. exact queued_task_not_blocked_E. Qed.
 Print Assumptions C09_queued_task_not_blocked.
 
+(* ==== back-end selection, hasChannel, confinement to the loop thread ===================================== *)
+(* generated: newDefaultPoller constructs PollPoller iff ::getenv("MUDUO_USE_POLL") is set, EPollPoller
+   otherwise; by C09_backends_agree the choice does not change which callbacks run *)
+Theorem C09_default_poller_generated : forall set,
+  default_backend set = if Poller_newDefaultPoller_uses_poll set then BPoll else BEpoll.
+Proof. exact default_backend_link. Qed.
+Print Assumptions C09_default_poller_generated.
+
+(* generated: hasChannel is the channels_ lookup; updateChannel / removeChannel of both back-ends and
+   hasChannel begin with assertInLoopThread() *)
+Theorem C09_poller_entry_facts_generated :
+  Poller_hasChannel_is_map_lookup = true /\ Poller_entry_points_assert_thread = true.
+Proof. exact (conj hasChannel_lookup_current entry_points_assert_thread_current). Qed.
+Print Assumptions C09_poller_entry_facts_generated.
+
+(* Poller::hasChannel (what ~Channel asserts to be false) holds exactly of the registered channels *)
+Theorem C09_hasChannel : forall st sp c, reachEC st sp ->
+  (ep_hasChannel st c = true <-> exists s, sp c = Some s /\ s_reg s = true).
+Proof. exact ep_hasChannel_iff. Qed.
+Print Assumptions C09_hasChannel.
+Theorem C09_hasChannel_poll : forall st sp c, reachPC st sp ->
+  (pp_hasChannel st c = true <-> exists s, sp c = Some s /\ s_reg s = true).
+Proof. exact pp_hasChannel_iff. Qed.
+Print Assumptions C09_hasChannel_poll.
+
 (* ==== findings: the full statements are false of the models of the OLD shapes of the code ============== *)
 (* F-1 (fixed bbde8b0): without the index reset re-enabling a removed Channel object takes the update
    branch with a stale slot: assertion failure / out-of-bounds = Fault.  The history meets all
